@@ -119,7 +119,7 @@ class SignVerify(Family):
         if str(own) != want_addr:
             raise Viol('P2PKH address of the signer', want_addr, str(own))
         for a in (own, str(own), CBitcoinAddress(want_addr)):
-            if VerifyMessage(a, msg, sig64) is not True:
+            if not VerifyMessage(a, msg, sig64):
                 raise Viol('VerifyMessage false for the signer\'s own address', True, False)
         # negatives
         negs = []
@@ -134,14 +134,14 @@ class SignVerify(Family):
                 got = VerifyMessage(addr, msg, sig64)
             except Exception as e:  # noqa
                 raise Viol('VerifyMessage(%s) raised %s' % (what, type(e).__name__), False, str(e))
-            if got is not False:
+            if got:
                 raise Viol('VerifyMessage true for %s' % what, False, got)
         for t2 in perturbations(text):
             try:
                 got = VerifyMessage(own, BitcoinMessage(t2), sig64)
             except Exception as e:  # noqa
                 raise Viol('VerifyMessage on a perturbed message raised %s' % type(e).__name__, False, str(e))
-            if got is not False:
+            if got:
                 raise Viol('VerifyMessage true for a different message (%r instead of %r)' % (t2[:20], text[:20]), False, got)
         return ('recid%d:owned' % recid if owned else 'unowned nonce (recovery id not fixed)'), True
 
@@ -178,7 +178,7 @@ class RecoverCompact(Family):
         sig = bytes([hdr]) + r.to_bytes(32, 'big') + s.to_bytes(32, 'big')
         got = CPubKey.recover_compact(h, sig)
         if want_pt is None:
-            if got is not False:
+            if got:
                 raise Viol('recover_compact returned a key where reference recovery fails (header %d, %s)' % (hdr, kind), False, bytes(got).hex())
             return 'norecovery', False
         want = EC.encode_point(want_pt, comp)
@@ -214,14 +214,14 @@ class Magic(Family):
         key = CBitcoinSecret.from_secret_bytes(K.sbytes(K.SECRETS[2]), True)
         sig, owned = K.with_nonce(7, SignMessage, key, msg)
         addr = P2PKHBitcoinAddress.from_pubkey(key.pub)
-        if VerifyMessage(addr, msg, sig) is not True:
+        if not VerifyMessage(addr, msg, sig):
             raise Viol('own signature under magic %r does not verify' % (magic,), True, False)
         for mj, other in enumerate(self.MAGICS):
             ob = MAGIC if other is None else other.encode('utf-8')
             if ob == mb:
                 continue
             m2 = BitcoinMessage(text) if other is None else BitcoinMessage(text, other)
-            if VerifyMessage(addr, m2, sig) is not False:
+            if VerifyMessage(addr, m2, sig):
                 raise Viol('signature made under magic %r verifies under magic %r' % (magic, other), False, True)
         return 'ok', magic is not None
 
